@@ -66,11 +66,12 @@ Ops == TLCEval(
 \cup {O("ipt_del", d, k, "", FALSE, FALSE, FALSE, FALSE, "name", "*", "*") : d \in Files, k \in IPT}
 \cup {O("iso_del", d, k, "", FALSE, FALSE, FALSE, FALSE, by, "*", "*") : d \in Files, k \in Isos, by \in {"id", "obj", "retrieved"}}
 \cup {O(op, d, "", "", FALSE, FALSE, FALSE, FALSE, "", "*", "*") : op \in {"ads_from", "mats_from", "apt_from", "mpt_from", "ity_from", "ipt_from"}, d \in Files}
+\cup {O("session", d, "", "", FALSE, FALSE, FALSE, FALSE, "", "*", "*") : d \in {CHOOSE d \in Files : TRUE}}
 \cup {O("iso_from", d, "", "", FALSE, FALSE, FALSE, FALSE, "", cm, ca) : d \in Files, cm \in Mats \cup {"*"}, ca \in Ads \cup {"*"}})
 
 \* the isotherm-property-type table behaves like the other type tables (same SpecTyTo/SpecDel): its
 \* operations take part in the state space only when WithIPT (thorough tier), always in StepLaws
-Mutating == {o \in Ops : ~IsRetrieval(o) /\ (WithIPT \/ o.op \notin {"ipt_to", "ipt_del"})}
+Mutating == {o \in Ops : ~IsRetrieval(o) /\ o.op # "session" /\ (WithIPT \/ o.op \notin {"ipt_to", "ipt_del"})}
 
 Init == /\ db = [d \in Files |-> Fresh] /\ model = db /\ reg = Reg0 /\ hist = <<>>
 
